@@ -784,7 +784,11 @@ def build_unit(unit, outdir, ghost_override=None, variant=None):
                 # the statements from <first line> to <last line> (stripped text, first occurrence each, inside the
                 # named function) are taken verbatim as the body of a function of their free variables
                 _, srcfile, label, rest_ = line.split(None, 3)
-                hdr, first, last, sig, tail = [x.strip() for x in rest_.split(";;")]
+                fields__ = [x.strip() for x in rest_.split(";;")]
+                hdr, first, last, sig, tail = fields__[:5]
+                # optional 6th field `cont:<expr>`: the sliced lines sit in a loop body and leave it with `continue;` when an
+                # element is done - in the function they become `return <expr>;` (counted: S2)
+                cont_expr = fields__[5][5:].strip() if len(fields__) > 5 and fields__[5].startswith("cont:") else None
                 if tail == "-":
                     tail = ""   # the block is a statement list; the function returns ()
                 whole, f0, _f1 = extract_item(srcfile, hdr, 0)
@@ -797,7 +801,12 @@ def build_unit(unit, outdir, ghost_override=None, variant=None):
                 try:
                     if first.startswith("after:"):
                         # structural start: the line following the one with that text (e.g. a loop header)
-                        i0 = next(k for k, l in enumerate(wl) if l.strip() == first[6:].strip()) + 1
+                        ftxt_ = first[6:].strip()
+                        mnth_ = re.match(r"nth=(\d+):(.*)$", ftxt_)   # after:nth=2:<line> = after the 2nd line with that text
+                        if mnth_:
+                            i0 = [k for k, l in enumerate(wl) if l.strip() == mnth_.group(2).strip()][int(mnth_.group(1)) - 1] + 1
+                        else:
+                            i0 = next(k for k, l in enumerate(wl) if l.strip() == ftxt_) + 1
                     elif first.startswith("afterblock:"):
                         # structural start: the line following the end of the brace block opened on the line with that text
                         bl0 = next(k for k, l in enumerate(wl) if l.strip() == first[11:].strip())
@@ -835,6 +844,10 @@ def build_unit(unit, outdir, ghost_override=None, variant=None):
                 except (StopIteration, IndexError):
                     raise Undecided("lost slice anchor in %s (%s): `%s` .. `%s`" % (srcfile, label, first, last))
                 body = dedent("\n".join(wl[i0:i1 + 1]))
+                if cont_expr is not None:
+                    ncont = len(re.findall(r"(?m)^(\s*)continue;\s*$", body))
+                    body = re.sub(r"(?m)^(\s*)continue;\s*$", lambda m_: m_.group(1) + "return " + cont_expr + ";", body)
+                    _bump(report, "S2 `continue;` of the enclosing loop rewritten to `return <slice result>;`", ncont)
                 ind_body = "\n".join("    " + l if l.strip() else l for l in body.split("\n"))
                 if "@" in tail:
                     # the sliced lines are an expression: `Ok(@)` wraps them as a block expression
